@@ -18,8 +18,10 @@ SPEC = {
         {"name": "st", "src": _SRC, "variant": "asan",
          "configs": {"general": {"quick": 5000, "thorough": 120000}, "small_labels_nofilt": {"quick": 3000, "thorough": 80000},
                      "contiguous": {"quick": 3000, "thorough": 80000}}, "chunk": 25},
-        {"name": "st_gcc", "src": _SRC, "variant": "gasan", "tiers": ["thorough"],
-         "configs": {"general": {"thorough": 20000}, "small_labels_nofilt": {"thorough": 10000}, "contiguous": {"thorough": 10000}}, "chunk": 25},
+        # gcc's UBSan sees invalid-bool loads that clang's optimises away (it found the uninitialised end iterator of the star range)
+        {"name": "st_gcc", "src": _SRC, "variant": "gasan",
+         "configs": {"general": {"quick": 400, "thorough": 20000}, "small_labels_nofilt": {"quick": 200, "thorough": 10000},
+                     "contiguous": {"quick": 200, "thorough": 10000}}, "chunk": 25},
     ],
     "floors": {"quick": {"hist.reaches_dim3": 50, "state.empty_complex": 50, "state.upper_bound_above_dimension": 50,
                          "op.remove_maximal_simplex": 1000, "op.prune_above_filtration": 300, "op.prune_above_dimension": 300,
